@@ -352,8 +352,14 @@ func (w *objectWalk) processCommitTrees(lc *object.Commit) error {
 		return fmt.Errorf("getting tree for %s: %w", lc.Hash, err)
 	}
 
+	// A commit on the shallow boundary is sent without its parents: its tree
+	// must not be diffed against theirs (they are in the object store of a
+	// server that grafts the boundary, but the receiver never gets them), or
+	// every entry it shares with an omitted parent would be left out.
+	_, shallow := w.shallows[lc.Hash]
+
 	var oldTrees []*object.Tree
-	for i := 0; i < lc.NumParents(); i++ {
+	for i := 0; !shallow && i < lc.NumParents(); i++ {
 		parent, err := lc.Parent(i)
 		if err != nil {
 			if errors.Is(err, plumbing.ErrObjectNotFound) {
